@@ -275,8 +275,19 @@ def p_gateway( ctx ):
         res.bad( src, cg, 'proxy.close_gateway', 'the connection must be closed and forgotten (gateway = None) so that the next use reconnects' )
     # ... and forgotten even when closing FAILS: a connected gateway's close() sends a Forward Close and raises on a dead connection (the
     # very situation close_gateway is called in); every path from the close() call to ANY exit, exceptional ones included, stores None
+    # ( what else may raise on the way: anything that digs into the reason handed in - a parameter whose shape nobody promised: an OSError's
+    #   args[0] is a number, a timeout has no args at all - by subscript or method call )
+    cg_params = { a.arg for a in cg.args.args + cg.args.kwonlyargs } - { 'self' }
+    def root_( x ):
+        while isinstance( x, ( ast.Attribute, ast.Subscript, ast.Call )):
+            x = x.func if isinstance( x, ast.Call ) else x.value
+        return x.id if isinstance( x, ast.Name ) else None
     def gw_may_raise( node ):
-        return node is not None and any( isinstance( c, ast.Call ) and ( dotted( c.func ) or '' ).startswith( 'self.gateway.' ) for c in ast.walk( node ))
+        return node is not None and any(
+            ( isinstance( c, ast.Call ) and ( dotted( c.func ) or '' ).startswith( 'self.gateway.' ))
+            or ( isinstance( c, ast.Subscript ) and root_( c.value ) in cg_params )
+            or ( isinstance( c, ast.Call ) and isinstance( c.func, ast.Attribute ) and root_( c.func.value ) in cg_params )
+            for c in ast.walk( node ))
     gcfg = CFG( cg, may_raise=gw_may_raise )
     closes = [ n for n in gcfg.nodes if n.kind == 'stmt' and pfind( n.stmt, 'self.gateway.close()' ) ]
     forgets = [ n for n in gcfg.nodes if n.kind == 'stmt' and pmatch( n.stmt, 'self.gateway = None' ) is not None ]
@@ -285,7 +296,7 @@ def p_gateway( ctx ):
     if forgets and all( gcfg.must_pass( c, x, forgets, correlated=False ) for c in closes for x in ( gcfg.exit, gcfg.raise_exit )):
         res.ok( src, cg, 'close_gateway: gateway = None is stored on every path from close(), including the paths on which close() raises' )
     else:
-        res.bad( src, closes[0].stmt, 'proxy.close_gateway: an exception from self.gateway.close() skips self.gateway = None',
+        res.bad( src, closes[0].stmt, 'proxy.close_gateway: an exception from self.gateway.close(), or from digging into the reason handed in, skips self.gateway = None',
                  'a connected gateway raises from close() when its connection is already dead ( Forward Close -> EPIPE ): the dead gateway is kept, open_gateway sees it and never reconnects - every later use fails' )
     # @maintain_gateway promises "open the gateway, discard it on any Exception" around the decorated method.  A GENERATOR method performs its I/O
     # while it is iterated: `with inst: return function( ... )` is left as soon as the generator object exists, and an exception raised during
